@@ -27,3 +27,4 @@ REGISTRY["r1cs_sound"] = ("r1cs", "sound")
 REGISTRY["r1cs_compl"] = ("r1cs", "compl")
 REGISTRY["min_invsqrt"] = ("mincurve", "invsqrt")
 REGISTRY["bls_consts"] = ("blsconsts", None)
+REGISTRY["ark_invsqrt"] = ("arksqrt", None)
